@@ -190,12 +190,16 @@ def run_shard(ctx):
         L = rng.choice([0, 1, 2, 3, 4, 5, 7, 8, 9, rng.randint(0, 60)])
         base = rng.choice([33, 64])
         cf, cb = rng.choice(cut_choices), rng.choice(cut_choices[1:])
+        if rng.random() < 0.03:
+            # "all cutoff pairs": also values far outside the quality range (still C ints)
+            cf, cb = rng.choice([0, cf, 10 ** 9, 2147483647]), rng.choice([cb, 1100000000, 2147483000])
+            ctx.count("huge_cutoff_cases")
         q = gen_q(rng, L, [cf, cb])
         q = [max(-base + 1, min(x, 126 - base)) for x in q]
         if rng.random() < 0.93:
             q = [max(0, x) for x in q]   # mostly non-negative; 7% keep characters below the base
         seq = "".join(rng.choice("ACGTGGGNg" if rng.random() < 0.7 else "ACGT") for _ in range(L))
-        nc = rng.choice([0, 1, 5, 10, 20])
+        nc = rng.choice([0, 1, 5, 10, 20]) if rng.random() < 0.98 else rng.choice([10 ** 9, 2147483647])
         check_direct(ctx, q, cf, cb, base, seq, nc)
         if asan and i % 50 == 0:
             ctx.san_check(lambda: dict(q=q, cf=cf, cb=cb, base=base, seq=seq, nc=nc))
